@@ -101,6 +101,9 @@ func cmdE2E(args []string) error {
 	if !tars.VerifFailoverQuiesce() {
 		return fmt.Errorf("endpoint manager already running: cannot quiesce its tickers")
 	}
+	// ... except the refresher: it runs every 10 ms, and the registry of a registry-fed scenario decides which of its
+	// queries is answered when (e2e_mgr.go); direct proxies are never refreshed
+	tars.GetClientConfig().RefreshEndpointInterval = 10
 	rng := rand.New(rand.NewSource(*seed*104729 + 7))
 	rogger.SetLevel(rogger.OFF)
 
@@ -231,7 +234,13 @@ func cmdE2E(args []string) error {
 	}
 	b, _ := json.Marshal(map[string]interface{}{"servers": nsrv, "scenarios": len(scs), "calls": calls,
 		"registry": map[string]int{"scenarios": mst.Scenarios, "endpoint_blocked": mst.Blocks, "endpoint_recovered": mst.Recoveries,
-			"routing_steps_judged": mst.Steps, "calls": mst.Calls}, "registry_errors": mst.Errors})
+			"routing_steps_judged": mst.Steps, "calls": mst.Calls,
+			"refresh_same_set_other_order": mst.TicksSameSet, "refresh_same_set_after_a_recovery": mst.TicksSameSetAfterRecovery,
+			"refresh_changed_set": mst.TicksChangedSet, "refresh_while_an_endpoint_is_blocked": mst.TicksWhileBlocked,
+			"registry_queries_answered":                          mst.RegistryQueries,
+			"obs_refresh_reordered_list_of_unchanged_active_set": mst.ReorderedWithSameActiveSet,
+			"obs_active_set_not_reply_minus_blocked":             len(mst.ActiveSetNotReplyMinusBlocked)},
+		"registry_observations": mst.ActiveSetNotReplyMinusBlocked, "registry_errors": mst.Errors})
 	return os.WriteFile(filepath.Join(*out, "e2e_meta.json"), b, 0o644)
 }
 
